@@ -35,6 +35,8 @@ DECIDED = [
     "FMT-1 the three file lists (xml/odml, json, yaml globs) are converted with XML, JSON and YAML respectively, unconditionally",
     "MAP-2 (shared with C15) the version converter the tools call counts every occurrence of a repeated sibling name (each gets its own suffix, so the output keeps every entity)",
     "FC-1 FormatConverter: output path = join(output dir, file name); the implicit output dir is <input dir name>_<format> next to the input dir; inputs are only loaded",
+    "PARSE-3 the version converter's XML parser is built without encoding / recover (every convertible file gets its output)",
+    'FC-1 also: no path is used as a regular expression and no re.escape() result as a replacement when the sub directory is mapped',
 ]
 NOT_DECIDED = ["byte identity of inputs (follows from the absence of write sinks under the library model)", "content of the outputs",
                "an explicit output directory equal to the input directory"]
